@@ -267,6 +267,9 @@ func (e *sysEx) Exec(op string) string {
 		e.c = wd.AddChannel("VT", o)
 		e.keys, e.txs, e.sig, e.txsym = map[string]*simpeer.User{}, map[string]string{}, map[string]string{}, nil
 		wd.ACL.ByKeys = map[string]*simpeer.ACLEntry{}
+		// {A5} is black-listed, {A4} grey-listed: the account info says so to everybody who asks
+		wd.ACL.Accounts[addrString(e.addrRaw("{A5}"))] = &fpb.AccountInfo{KycHash: "k", BlackListed: true}
+		wd.ACL.Accounts[addrString(e.addrRaw("{A4}"))] = &fpb.AccountInfo{KycHash: "k", GrayListed: true}
 		return "ok"
 	case "submit":
 		if len(w) != 3 || e.c == nil {
@@ -337,7 +340,7 @@ func (e *sysEx) Exec(op string) string {
 	return "bad-op"
 }
 
-var sysAddrs = []string{"{A0}", "{A1}", "{A2}", "{A3}", "{AI}"}
+var sysAddrs = []string{"{A0}", "{A1}", "{A2}", "{A3}", "{A4}", "{AI}"}
 
 func compKey(prefix string, parts ...string) string {
 	k := "\x00" + prefix + "\x00"
@@ -479,6 +482,11 @@ func (g *sysGen) request(fn, sender string, margs []string, nonce string, sigSta
 }
 
 func (g *sysGen) freshNonce() uint64 {
+	if g.c.Rng.Intn(5) == 0 {
+		// a jump beyond the validity window: the stored window is pruned to this nonce alone
+		g.nonce += uint64(50000 + g.c.Rng.Intn(3) - 1 + g.c.Rng.Intn(2)*10000)
+		return g.nonce
+	}
 	g.nonce += uint64(1 + g.c.Rng.Intn(20000))
 	return g.nonce
 }
@@ -496,7 +504,7 @@ func (g *sysGen) nonceFor(sender string) string {
 	case r < 17:
 		n = seen[len(seen)-1] - 50001 - uint64(g.c.Rng.Intn(100000))
 	case r < 18:
-		return g.pick("999999999999", "10000000000000", "0", "abc", "")
+		return g.pick("999999999999", "10000000000000", "0", "abc", "", "0000000000000", "00000000000000000000", "01700000000001")
 	default:
 		n = seen[0] + uint64(g.c.Rng.Intn(40000)) // inside the window, unused with high probability
 	}
@@ -509,6 +517,9 @@ func (g *sysGen) randomRequest() string {
 	to := g.pick("{A0}", "{A1}", "{A2}", "{A3}", "{A1}", "{A2}")
 	if g.c.Rng.Intn(25) == 0 {
 		to = "notAnAddress"
+	}
+	if g.c.Rng.Intn(20) == 0 {
+		to = g.pick("{A5}", "{A4}") // a black-listed recipient fails the argument check; a grey-listed one does not
 	}
 	amt := g.pick("1", "5", "40", "100", "150", "1000", "0", "-5", "x", "7")
 	sig := "valid"
@@ -597,6 +608,23 @@ func genSYSDirected(c *Cfg, emit func([]string)) int {
 				f2[3] = strings.Replace(f2[3], sym2, sym1, 1)
 				f2[4] = f1[4]
 				h = via(g, h, r2, strings.Join(f2, "~"))
+				// the same sender far ahead (the window is pruned to one entry again), replayed at once
+				far := g.nonce + 60000 + uint64(g.c.Rng.Intn(3))
+				g.nonce = far
+				w3 := g.request(fn, sender, margs, strconv.FormatUint(far, 10), "valid", "ok")
+				h = via(g, h, r1, w3)
+				h = via(g, h, r2, w3)
+				h = via(g, h, r1, w3)
+				// a nonce that parses to zero / has leading zeros: never a 13-digit value
+				for _, z := range []string{"0", "0000000000000", "0" + strconv.FormatUint(g.freshNonce(), 10)} {
+					wz := g.request(fn, sender, margs, z, "valid", "ok")
+					h = via(g, h, r1, wz)
+					h = via(g, h, r2, wz)
+				}
+				// a black-listed recipient: the submission itself must be refused
+				if fn != "emit" {
+					h = via(g, h, r1, g.request(fn, sender, []string{"{A5}", "1", "ref"}, strconv.FormatUint(g.freshNonce(), 10), "valid", "ok"))
+				}
 				emit(h)
 				count++
 			}
